@@ -101,7 +101,7 @@ def call_text(case: dict) -> str:
 _COMPLEMENT = {"A": "T", "C": "G", "G": "C", "T": "A"}
 
 
-def materialise(case: dict, seed: int):
+def materialise(case: dict, seed: int, tta_at=None):
     """ A Record with a seeded random DNA sequence carrying one CDS at the case's location whose reading
         frame (after codon_start) holds ATG + random sense codons, read into antiSMASH the way a GenBank
         feature is (location + /codon_start, translation generated from the record).
@@ -124,6 +124,10 @@ def materialise(case: dict, seed: int):
     sense = sorted(table)
     codons = ["ATG"] + [rng.choice(sense) for _ in range(residues - 1)]
     bases = [rng.choice("ACGT") for _ in range(case["L"])]
+    if tta_at is not None:
+        # for the TTA scan: leucine codons TTA at the given residues and nowhere else, in no frame of either strand
+        codons = ["TTA" if idx in tta_at else ("ATG" if idx == 0 else "GCC") for idx in range(residues)]
+        bases = [rng.choice("GC") for _ in range(case["L"])]
     for pos, base in zip(positions, "".join(codons)):
         bases[pos] = base if gene["loc"]["strand"] == 1 else _COMPLEMENT[base]
     record = Record(seq=Seq("".join(bases)), id="c09rec", name="c09rec")
@@ -271,6 +275,22 @@ def _observe(case: dict) -> dict:
         else:
             entry["tta"] = _skipped(P.DUMMY_LOC)
         event["rs"].append(entry)
+    # the scan itself (tta.detect) on a gene in one piece: which codons does it mark?  (For genes in several pieces the
+    # marker placement is finding P9-tta-multi-exon; the scan is not run on them.)
+    planted = sorted({start for start, end in case["ranges"] if end == start + 1})
+    event["ttad"] = {"on": False, "exc": "", "v": []}
+    if case["tta"] and planted and len(case["g"]["loc"]["parts"]) == 1:
+        def scan():
+            import types
+            from antismash.common.secmet.features import SubRegion
+            from antismash.common.secmet.locations import FeatureLocation
+            from antismash.modules.tta import tta
+            rec2, _, _ = materialise(case, current_seed(), tta_at=set(planted))
+            rec2.add_subregion(SubRegion(FeatureLocation(0, case["L"], 1), tool="c09"))
+            rec2.create_regions()
+            found = tta.detect(rec2, types.SimpleNamespace(tta_threshold=0.0))
+            return [feature.location for feature in found.features]
+        event["ttad"] = dict(P.result(scan, [], lambda locs: [P.loc(loc) for loc in locs]), on=True)
     return event
 
 
